@@ -117,25 +117,31 @@ def live_overlap_oracle(log):
 
 
 def exec_lockstep(ctx, res, rexe):
-    """memory_pool<node_pool> logs of configurations without the double-free check (intrusive list) replayed through the Exec
-    pool model (PoolExec: arena + list, every address, every upstream request, every range handed to the list)"""
+    """memory_pool logs replayed through the Exec pool models (arena + list; every address, every upstream request, every
+    range handed to the list): node_pool without the double-free check -> PoolExec (intrusive list), array_pool and node_pool
+    with the check -> OrderedPoolExec (address-ordered list), small_node_pool -> SmallPoolExec (chunked list)"""
     import subprocess
-    steps = 0; div = 0; n = 0
+    steps = 0; div = 0; n = 0; per = {}
     if not rexe:
         return dict(exec_pool_logs=0, exec_pool_steps=0, exec_pool_divergences=0)
     for r in res:
         kind, tgt, c = r['case']['tag']
         small = str(tgt).startswith('pool small ')
-        if kind != 'pool' or not (small or (str(tgt).startswith('pool node ') and not build.CONFIGS[c]['DBL'])):
+        dbl = bool(build.CONFIGS[c]['DBL'])
+        ordered = str(tgt).startswith('pool array ') or (str(tgt).startswith('pool node ') and dbl)
+        if kind != 'pool' or not (small or ordered or str(tgt).startswith('pool node ')):
             continue
         n += 1
-        out = subprocess.run([rexe, 'poolexec', 'small' if small else '0'], input=r['log'], stdout=subprocess.PIPE, text=True).stdout
+        topic = ['small'] if small else (['ordered', '1' if dbl else '0'] if ordered else ['0'])
+        out = subprocess.run([rexe, 'poolexec'] + topic, input=r['log'], stdout=subprocess.PIPE, text=True).stdout
         for ln in out.split('\n'):
             if ln.startswith('SUMMARY'):
                 kv = dict(x.split('=') for x in ln.split()[1:])
                 steps += int(kv.get('exec_steps', 0))
+                per[topic[0]] = per.get(topic[0], 0) + int(kv.get('exec_steps', 0))
             elif ln.startswith('DIVERGE'):
                 div += 1
                 if div <= 3:
                     ctx.tie_broken.append('correspondence (Exec pool): %s (%s cfg=%s)' % (ln[:300], tgt, c))
-    return dict(exec_pool_logs=n, exec_pool_steps=steps, exec_pool_divergences=div)
+    return dict(exec_pool_logs=n, exec_pool_steps=steps, exec_pool_divergences=div, exec_pool_steps_intrusive=per.get('0', 0),
+                exec_pool_steps_ordered=per.get('ordered', 0), exec_pool_steps_small=per.get('small', 0))
